@@ -120,13 +120,16 @@ theorem opLocalLogout_cases (n : Net) (y : Nat) :
     · exact Or.inr rfl
     · exact Or.inl rfl
 
-theorem opLocalCmd_cases (n : Net) (y : Nat) (u p : String) (k : Nat) :
-    (opLocalCmd n y u p k).1 = n ∨
+theorem opLocalCmdK_cases (K : Net → Net × Out) (n : Net) (y : Nat) (u p : String) :
+    (opLocalCmdK K n y u p).1 = n ∨
     ∃ nd, n.node y = some nd ∧ nd.isOn = true ∧
-      (((localLogin n y u p).2 = none ∧ (opLocalCmd n y u p k).1 = (localLogin n y u p).1) ∨
+      (((localLogin n y u p).2 = none ∧ (opLocalCmdK K n y u p).1 = (localLogin n y u p).1) ∨
        ∃ id, (localLogin n y u p).2 = some id ∧
-         (opLocalCmd n y u p k).1 = (((localLogin n y u p).1.upd y (Node.addConn ⟨id, none⟩)).upd y (Node.localExec k))) := by
-  unfold opLocalCmd
+         ((nd.term.running = false ∧
+            (opLocalCmdK K n y u p).1 = (localLogin n y u p).1.upd y (Node.addConn ⟨id, none⟩)) ∨
+          (nd.term.running = true ∧
+            (opLocalCmdK K n y u p).1 = (K ((localLogin n y u p).1.upd y (Node.addConn ⟨id, none⟩))).1))) := by
+  unfold opLocalCmdK
   split
   · exact Or.inl rfl
   · rename_i nd hnd
@@ -135,9 +138,70 @@ theorem opLocalCmd_cases (n : Net) (y : Nat) (u p : String) (k : Nat) :
     · rename_i h1
       split
       · rename_i id hid
-        exact Or.inr ⟨nd, hnd, by simpa using h1, Or.inr ⟨id, hid, rfl⟩⟩
+        split
+        · rename_i hr
+          exact Or.inr ⟨nd, hnd, by simpa using h1, Or.inr ⟨id, hid, Or.inr ⟨hr, rfl⟩⟩⟩
+        · rename_i hr
+          exact Or.inr ⟨nd, hnd, by simpa using h1, Or.inr ⟨id, hid, Or.inl ⟨by simpa using hr, rfl⟩⟩⟩
       · rename_i hid
         exact Or.inr ⟨nd, hnd, by simpa using h1, Or.inl ⟨hid, rfl⟩⟩
+
+theorem opFile_cases (n : Net) (y k : Nat) :
+    (opFile n y k).1 = n ∨ ∃ nd, n.node y = some nd ∧ nd.isOn = true ∧ (opFile n y k).1 = n.upd y (Node.addFile k) := by
+  unfold opFile
+  split
+  · exact Or.inl rfl
+  · rename_i nd hnd
+    split
+    · exact Or.inl rfl
+    · rename_i h1; exact Or.inr ⟨nd, hnd, by simpa using h1, rfl⟩
+
+theorem opEnableUser_cases (n : Net) (y : Nat) (u : String) :
+    (opEnableUser n y u).1 = n ∨ (opEnableUser n y u).1 = n.upd y (Node.setEnabled u) := by
+  unfold opEnableUser
+  split
+  · exact Or.inl rfl
+  · split
+    · exact Or.inl rfl
+    · split
+      · exact Or.inr rfl
+      · exact Or.inl rfl
+
+theorem opUsmLogin_cases (n : Net) (y : Nat) (u p : String) (peer : Nat) :
+    ((opUsmLogin n y u p peer).1 = n ∧ (opUsmLogin n y u p peer).2 ≠ .success) ∨
+    ∃ b, n.node y = some b ∧ b.isOn = true ∧ b.loginOk u p = true ∧ b.rem.length < b.maxRemote ∧
+      (opUsmLogin n y u p peer).1 = (n.upd y (Node.addSession ⟨n.nextId, u, n.time, peer⟩)).bump (n.nextId + 1) ∧
+      (opUsmLogin n y u p peer).2 = .success := by
+  unfold opUsmLogin
+  split
+  · exact Or.inl ⟨rfl, by simp⟩
+  · rename_i b hb
+    split
+    · exact Or.inl ⟨rfl, by simp⟩
+    · rename_i h1
+      split
+      · rename_i h3
+        simp only [Bool.and_eq_true, decide_eq_true_eq] at h3
+        exact Or.inr ⟨b, hb, by simpa using h1, h3.1, h3.2, rfl, rfl⟩
+      · exact Or.inl ⟨rfl, by simp⟩
+
+theorem opUsmLogout_cases (n : Net) (y i : Nat) :
+    ((opUsmLogout n y i).1 = n ∧ (opUsmLogout n y i).2 ≠ .success) ∨
+    ∃ nd s, n.node y = some nd ∧ nd.canUsm = true ∧ nd.rem[i]? = some s ∧
+      (opUsmLogout n y i).1 = (disconnect n.fuel n y s.id).upd y (Node.dropSession s.id) := by
+  unfold opUsmLogout
+  split
+  · exact Or.inl ⟨rfl, by simp⟩
+  · rename_i nd hnd
+    split
+    · exact Or.inl ⟨rfl, by simp⟩
+    · split
+      · exact Or.inl ⟨rfl, by simp⟩
+      · rename_i h2
+        split
+        · exact Or.inl ⟨rfl, by simp⟩
+        · rename_i s hs
+          exact Or.inr ⟨nd, s, hnd, by simpa using h2, hs, rfl⟩
 
 /-- the network right after the target accepted a remote login -/
 def afterLogin (n : Net) (x y : Nat) (u : String) : Net :=
@@ -183,14 +247,15 @@ structure CmdArrives (n : Net) (x y : Nat) (a b : Node) (c : Conn) : Prop where
   path : canDeliver n x y = true
   dst : n.node y = some b
 
-theorem opRemoteCmd_cases (n : Net) (x y k : Nat) :
-    ((opRemoteCmd n x y k).1 = n ∧ (opRemoteCmd n x y k).2 ≠ .success) ∨
+theorem opRemoteCmdK_cases (K : Net → Net × Out) (n : Net) (x y : Nat) :
+    ((opRemoteCmdK K n x y).1 = n ∧ (opRemoteCmdK K n x y).2 ≠ .success) ∨
     ∃ a b c, CmdArrives n x y a b c ∧
       ((b.hasSession c.id = true ∧ b.hasConn c.id = true ∧
-          (opRemoteCmd n x y k).1 = n.upd y (Node.remoteExec c.id n.time k)) ∨
-       (b.hasSession c.id = false ∧ (opRemoteCmd n x y k).1 = disconnect n.fuel n y c.id ∧
-          (opRemoteCmd n x y k).2 = .failure)) := by
-  unfold opRemoteCmd
+          (opRemoteCmdK K n x y).1 = (K (n.upd y (Node.touch c.id n.time))).1 ∧
+          ((opRemoteCmdK K n x y).2 = .success → (K (n.upd y (Node.touch c.id n.time))).2 = .success)) ∨
+       (b.hasSession c.id = false ∧ (opRemoteCmdK K n x y).1 = disconnect n.fuel n y c.id ∧
+          (opRemoteCmdK K n x y).2 = .failure)) := by
+  unfold opRemoteCmdK
   split
   · exact Or.inl ⟨rfl, by simp⟩
   · rename_i a ha
@@ -213,7 +278,12 @@ theorem opRemoteCmd_cases (n : Net) (x y k : Nat) :
               split
               · rename_i h4
                 split
-                · rename_i h5; exact Or.inr ⟨a, b, c, arr, Or.inl ⟨h4, h5, rfl⟩⟩
+                · rename_i h5
+                  refine Or.inr ⟨a, b, c, arr, Or.inl ⟨h4, h5, rfl, ?_⟩⟩
+                  dsimp only
+                  split
+                  · exact id
+                  · intro h; cases h
                 · exact Or.inl ⟨rfl, by simp⟩
               · rename_i h4
                 exact Or.inr ⟨a, b, c, arr, Or.inr ⟨by simpa using h4, rfl, rfl⟩⟩
@@ -308,13 +378,31 @@ theorem Frame.localLogout (F : Frame R) (n : Net) (y : Nat) : Net.Rel R n (opLoc
   · exact F.rel_refl n
   · exact F.rel_upd (F.rel_refl n) y _ (fun a => F.shr y a _ (shr_localLogout a))
 
-theorem Pre.localCmd (F : Pre R) (n : Net) (y : Nat) (u p : String) (k : Nat)
-    (h1 : ∀ a l, R y a (a.setLoc l)) (h2 : ∀ a c, R y a (a.addConn c)) (h3 : ∀ a, R y a (a.localExec k)) :
-    Net.Rel R n (opLocalCmd n y u p k).1 := by
-  rcases opLocalCmd_cases n y u p k with h0 | ⟨nd, _, _, ⟨_, h0⟩ | ⟨id, _, h0⟩⟩ <;> rw [h0]
+theorem Pre.localCmdK (F : Pre R) (K : Net → Net × Out) (n : Net) (y : Nat) (u p : String)
+    (h1 : ∀ a l, R y a (a.setLoc l)) (h2 : ∀ a c, R y a (a.addConn c)) (hK : ∀ m, Net.Rel R m (K m).1) :
+    Net.Rel R n (opLocalCmdK K n y u p).1 := by
+  rcases opLocalCmdK_cases K n y u p with h0 | ⟨nd, _, _, ⟨_, h0⟩ | ⟨id, _, ⟨_, h0⟩ | ⟨_, h0⟩⟩⟩ <;> rw [h0]
   · exact F.rel_refl n
   · exact F.localLogin n y u p h1
-  · exact F.rel_upd (F.rel_upd (F.localLogin n y u p h1) y _ (fun a => h2 a _)) y _ h3
+  · exact F.rel_upd (F.localLogin n y u p h1) y _ (fun a => h2 a _)
+  · exact F.rel_trans (F.rel_upd (F.localLogin n y u p h1) y _ (fun a => h2 a _)) (hK _)
+
+theorem Pre.file (F : Pre R) (n : Net) (y k : Nat) (h : ∀ a, R y a (a.addFile k)) : Net.Rel R n (opFile n y k).1 := by
+  rcases opFile_cases n y k with h0 | ⟨nd, _, _, h0⟩ <;> rw [h0]
+  · exact F.rel_refl n
+  · exact F.rel_upd (F.rel_refl n) y _ h
+
+theorem Pre.enableUser (F : Pre R) (n : Net) (y : Nat) (u : String) (h : ∀ a, R y a (a.setEnabled u)) :
+    Net.Rel R n (opEnableUser n y u).1 := by
+  rcases opEnableUser_cases n y u with h0 | h0 <;> rw [h0]
+  · exact F.rel_refl n
+  · exact F.rel_upd (F.rel_refl n) y _ h
+
+theorem Pre.usmLogin (F : Pre R) (n : Net) (y : Nat) (u p : String) (peer : Nat) (h : ∀ a s, R y a (a.addSession s)) :
+    Net.Rel R n (opUsmLogin n y u p peer).1 := by
+  rcases opUsmLogin_cases n y u p peer with ⟨h0, _⟩ | ⟨b, _, _, _, _, h0, _⟩ <;> rw [h0]
+  · exact F.rel_refl n
+  · exact rel_bump (F.rel_upd (F.rel_refl n) y _ (fun a => h a _)) _
 
 theorem Pre.afterLogin (F : Pre R) (n : Net) (x y : Nat) (u : String)
     (h1 : ∀ a s, R y a (a.addSession s)) (h2 : ∀ a c, R y a (a.addConn c)) : Net.Rel R n (afterLogin n x y u) :=
@@ -327,12 +415,17 @@ theorem Pre.remoteLogin (F : Pre R) (n : Net) (x y : Nat) (u p : String)
   · exact F.afterLogin n x y u h1 (h2 y)
   · exact F.rel_upd (F.afterLogin n x y u h1 (h2 y)) x _ (fun a => h2 x a _)
 
-theorem Frame.remoteCmd (F : Frame R) (n : Net) (x y k : Nat)
-    (h : ∀ a cid t, R y a (a.remoteExec cid t k)) : Net.Rel R n (opRemoteCmd n x y k).1 := by
-  rcases opRemoteCmd_cases n x y k with ⟨h0, _⟩ | ⟨a, b, c, _, ⟨_, _, h0⟩ | ⟨_, h0, _⟩⟩ <;> rw [h0]
+theorem Frame.remoteCmdK (F : Frame R) (K : Net → Net × Out) (n : Net) (x y : Nat)
+    (h : ∀ a cid t, R y a (a.touch cid t)) (hK : ∀ m, Net.Rel R m (K m).1) : Net.Rel R n (opRemoteCmdK K n x y).1 := by
+  rcases opRemoteCmdK_cases K n x y with ⟨h0, _⟩ | ⟨a, b, c, _, ⟨_, _, h0, _⟩ | ⟨_, h0, _⟩⟩ <;> rw [h0]
   · exact F.rel_refl n
-  · exact F.rel_upd (F.rel_refl n) y _ (fun a => h a _ _)
+  · exact F.rel_trans (F.rel_upd (F.rel_refl n) y _ (fun a => h a _ _)) (hK _)
   · exact F.rel_shr F.shr (F.rel_refl n) (shr_disconnect _ _ _ _)
+
+theorem Frame.usmLogout (F : Frame R) (n : Net) (y i : Nat) : Net.Rel R n (opUsmLogout n y i).1 := by
+  rcases opUsmLogout_cases n y i with ⟨h0, _⟩ | ⟨nd, s, _, _, _, h0⟩ <;> rw [h0]
+  · exact F.rel_refl n
+  · exact F.rel_shr F.shr (F.rel_refl n) ((shr_disconnect _ _ _ _).trans (shr_upd _ _ _ (shr_dropSession s.id)))
 
 theorem Frame.remoteLogoff (F : Frame R) (n : Net) (x y : Nat) : Net.Rel R n (opRemoteLogoff n x y).1 := by
   rcases opRemoteLogoff_cases n x y with h0 | ⟨a, c, _, _, _, h0, _⟩ <;> rw [h0]
@@ -357,42 +450,158 @@ theorem Frame.ofData (F : Frame R) (n m : Net) (y : Nat)
   · exact F.rel_refl n
   · exact F.rel_upd (F.rel_refl n) y f (fun a => F.data y a _ (hf a))
 
-/-- every operation that is not a login, a command or a user-table edit -/
-theorem Frame.quiet (F : Frame R) (n : Net) (op : Op)
-    (hop : match op with
-      | .localLogout _ | .remoteLogoff _ _ | .svc _ _ _ | .shutdown _ | .startup _ | .reset _ | .tick => True
-      | _ => False) : Net.Rel R n (step n op).1 := by
-  cases op <;> simp only at hop
-  · exact F.localLogout n _
-  · exact F.remoteLogoff n _ _
-  · exact F.ofData n _ _ (opSvc_cases n _ _ _)
-  · exact F.ofData n _ _ (opShutdown_cases n _)
-  · exact F.ofData n _ _ (opStartup_cases n _)
-  · exact F.ofData n _ _ (opReset_cases n _)
-  · exact F.tick n
+/-- a command that is not a terminal command carrying another command -/
+def Cmd.atomic : Cmd → Bool
+  | .localCmd _ _ _ | .remoteCmd _ _ => false
+  | _ => true
 
-/-- every operation, for a relation that tolerates every node edit of the model -/
-theorem Frame.step (F : Frame R) (n : Net) (op : Op)
-    (hU : ∀ j a w, R j a (a.addUser w)) (hD : ∀ y u, op = .disableUser y u → ∀ a, R y a (a.setDisabled u)) (hP : ∀ j a u p, R j a (a.setPassword u p))
-    (hL : ∀ y, ((∃ u p, op = .localLogin y u p) ∨ ∃ u p k, op = .localCmd y u p k) → ∀ a l, R y a (a.setLoc l))
-    (hC : ∀ j a c, R j a (a.addConn c)) (hS : ∀ j a s, R j a (a.addSession s))
-    (hE : ∀ j a k, R j a (a.localExec k)) (hX : ∀ j a cid t k, R j a (a.remoteExec cid t k)) :
-    Net.Rel R n (step n op).1 := by
+/-- no remote login (through the terminal or directly at the session manager) anywhere in the command -/
+def Cmd.noLogin : Cmd → Bool
+  | .remoteLogin _ _ _ | .usmLogin _ _ _ => false
+  | .localCmd _ _ c | .remoteCmd _ c => c.noLogin
+  | _ => true
+
+/-- no file command anywhere in the command -/
+def Cmd.noFile : Cmd → Bool
+  | .file _ => false
+  | .localCmd _ _ c | .remoteCmd _ c => c.noFile
+  | _ => true
+
+/-- no local terminal command anywhere in the command -/
+def Cmd.noLocal : Cmd → Bool
+  | .localCmd _ _ _ => false
+  | .remoteCmd _ c => c.noLocal
+  | _ => true
+
+def Op.noLogin : Op → Bool
+  | .req _ c => c.noLogin
+  | _ => true
+
+def Op.noFile : Op → Bool
+  | .req _ c => c.noFile
+  | _ => true
+
+/-- the edits a relation has to tolerate so that every request keeps it -/
+structure Edits (R : Nat → Node → Node → Prop) : Prop where
+  addUser : ∀ j a w, R j a (a.addUser w)
+  setPassword : ∀ j a u p, R j a (a.setPassword u p)
+  addConn : ∀ j a c, R j a (a.addConn c)
+  touch : ∀ j a cid t, R j a (a.touch cid t)
+
+/-- every request (`Node.apply_request`, commands nested to any depth), for a relation that tolerates the edits of the model;
+`disable_user` and the local login are given at the level of the operation because several relations hold for them only
+under the operation's guards; a new session / a new file has to be tolerated only if the command contains a login / a file
+command -/
+theorem Frame.exec (F : Frame R) (E : Edits R)
+    (hD : ∀ n y u, Net.Rel R n (opDisableUser n y u).1) :
+    ∀ (c : Cmd), (c.noLocal = false → ∀ n y u p, Net.Rel R n (localLogin n y u p).1) → (c.noLogin = false → ∀ j a s, R j a (a.addSession s)) → (c.noFile = false → ∀ j a k, R j a (a.addFile k)) →
+      ∀ (n : Net) (y : Nat), Net.Rel R n (execCmd c n y).1 := by
+  intro c
+  induction c with
+  | file k => intro _ _ hF n y; exact F.toPre.file n y k (fun a => hF rfl y a k)
+  | addUser u p adm => intro _ _ _ n y; exact F.toPre.addUser n y u p adm (E.addUser y)
+  | disableUser u => intro _ _ _ n y; exact hD n y u
+  | changePassword u o nw => intro _ _ _ n y; exact F.changePassword n y u o nw (fun a => E.setPassword y a u nw)
+  | localCmd u p c ih =>
+    intro hL hS hF n y
+    have hL' := hL rfl
+    rcases opLocalCmdK_cases (fun m => execCmd c m y) n y u p with h0 | ⟨nd, _, _, ⟨_, h0⟩ | ⟨id, _, ⟨_, h0⟩ | ⟨_, h0⟩⟩⟩ <;>
+      simp only [execCmd] <;> rw [h0]
+    · exact F.rel_refl n
+    · exact hL' n y u p
+    · exact F.rel_upd (hL' n y u p) y _ (fun a => E.addConn y a _)
+    · exact F.rel_trans (F.rel_upd (hL' n y u p) y _ (fun a => E.addConn y a _)) (ih (fun _ => hL') hS hF _ _)
+  | remoteLogin z u p => intro _ hS _ n y; exact F.toPre.remoteLogin n y z u p (hS rfl z) E.addConn
+  | remoteCmd z c ih => intro hL hS hF n y; exact F.remoteCmdK _ n y z (E.touch z) (fun m => ih hL hS hF m z)
+  | remoteLogoff z => intro _ _ _ n y; exact F.remoteLogoff n y z
+  | usmLogin u p peer => intro _ hS _ n y; exact F.toPre.usmLogin n y u p peer (hS rfl y)
+  | usmLogout i => intro _ _ _ n y; exact F.usmLogout n y i
+  | svc w v => intro _ _ _ n y; exact F.ofData n _ _ (opSvc_cases n _ _ _)
+  | shutdown => intro _ _ _ n y; exact F.ofData n _ _ (opShutdown_cases n _)
+  | startup => intro _ _ _ n y; exact F.ofData n _ _ (opStartup_cases n _)
+  | reset => intro _ _ _ n y; exact F.ofData n _ _ (opReset_cases n _)
+
+/-- every operation -/
+theorem Frame.step (F : Frame R) (E : Edits R)
+    (hD : ∀ n y u, Net.Rel R n (opDisableUser n y u).1) (hL : ∀ n y u p, Net.Rel R n (localLogin n y u p).1)
+    (hEn : ∀ j a u, R j a (a.setEnabled u)) (n : Net) (op : Op)
+    (hS : op.noLogin = false → ∀ j a s, R j a (a.addSession s)) (hF : op.noFile = false → ∀ j a k, R j a (a.addFile k)) :
+    Net.Rel R n (Primaite.Session.step n op).1 := by
   cases op with
-  | addUser y u p adm => exact F.toPre.addUser n y u p adm (hU y)
-  | disableUser y u => exact F.toPre.disableUser n y u (hD y u rfl)
-  | changePassword y u o nw => exact F.changePassword n y u o nw (fun a => hP y a u nw)
-  | localLogin y u p => simp only [Primaite.Session.step]; rw [opLocalLogin_fst]; exact F.toPre.localLogin n y u p (hL y (Or.inl ⟨u, p, rfl⟩))
-  | localCmd y u p k => exact F.toPre.localCmd n y u p k (hL y (Or.inr ⟨u, p, k, rfl⟩)) (hC y) (fun a => hE y a k)
-  | remoteCmd x y k => exact F.remoteCmd n x y k (fun a cid t => hX y a cid t k)
-  | remoteLogin x y u p => exact F.toPre.remoteLogin n x y u p (hS y) hC
-  | localLogout y => exact F.quiet n _ trivial
-  | remoteLogoff x y => exact F.quiet n _ trivial
-  | svc y w v => exact F.quiet n _ trivial
-  | shutdown y => exact F.quiet n _ trivial
-  | startup y => exact F.quiet n _ trivial
-  | reset y => exact F.quiet n _ trivial
-  | tick => exact F.quiet n _ trivial
+  | req y c => exact F.exec E hD c (fun _ => hL) hS hF n y
+  | enableUser y u => exact F.toPre.enableUser n y u (fun a => hEn y a u)
+  | localLogin y u p => simp only [Primaite.Session.step]; rw [opLocalLogin_fst]; exact hL n y u p
+  | localLogout y => exact F.localLogout n y
+  | tick => exact F.tick n
+
+/-- the common case: the relation tolerates `disabled := true` and a new local session unconditionally -/
+theorem Frame.step' (F : Frame R) (E : Edits R) (hD : ∀ j a u, R j a (a.setDisabled u)) (hL : ∀ j a l, R j a (a.setLoc l))
+    (hEn : ∀ j a u, R j a (a.setEnabled u)) (n : Net) (op : Op)
+    (hS : op.noLogin = false → ∀ j a s, R j a (a.addSession s)) (hF : op.noFile = false → ∀ j a k, R j a (a.addFile k)) :
+    Net.Rel R n (Primaite.Session.step n op).1 :=
+  F.step E (fun n y u => F.toPre.disableUser n y u (fun a => hD y a u)) (fun n y u p => F.toPre.localLogin n y u p (hL y)) hEn n op
+    hS hF
+
+/-! ### induction over nested commands for any transitive relation between networks -/
+
+/-- If a reflexive, transitive relation `P` between networks holds across every command that carries no further command,
+across everything that only tears sessions / connections down, across the bookkeeping of an accepted terminal command
+(`last_active_step`, the local login and its connection), then it holds across every request, nested to any depth. -/
+theorem exec_induction'' (P : Net → Net → Prop) (refl : ∀ n, P n n) (trans : ∀ a b c, P a b → P b c → P a c)
+    (hAtomic : ∀ c, c.atomic = true → ∀ n y, P n (execCmd c n y).1)
+    (hDisc : ∀ n y cid, P n (disconnect n.fuel n y cid))
+    (hTouch : ∀ n y cid t, P n (n.upd y (Node.touch cid t)))
+    (hLogin : ∀ n y u p, P n (localLogin n y u p).1)
+    (hLocal : ∀ n y u p id, (localLogin n y u p).2 = some id →
+      P n ((localLogin n y u p).1.upd y (Node.addConn ⟨id, none⟩))) :
+    ∀ (c : Cmd) (n : Net) (y : Nat), P n (execCmd c n y).1 := by
+  intro c
+  induction c with
+  | localCmd u p c ih =>
+    intro n y
+    rcases opLocalCmdK_cases (fun m => execCmd c m y) n y u p with h0 | ⟨nd, _, _, ⟨_, h0⟩ | ⟨id, hid, ⟨_, h0⟩ | ⟨_, h0⟩⟩⟩ <;>
+      simp only [execCmd] <;> rw [h0]
+    · exact refl n
+    · exact hLogin n y u p
+    · exact hLocal n y u p id hid
+    · exact trans _ _ _ (hLocal n y u p id hid) (ih _ _)
+  | remoteCmd z c ih =>
+    intro n y
+    rcases opRemoteCmdK_cases (fun m => execCmd c m z) n y z with ⟨h0, _⟩ | ⟨a, b, cn, _, ⟨_, _, h0, _⟩ | ⟨_, h0, _⟩⟩ <;>
+      simp only [execCmd] <;> rw [h0]
+    · exact refl n
+    · exact trans _ _ _ (hTouch _ _ _ _) (ih _ _)
+    · exact hDisc _ _ _
+  | file k => exact hAtomic _ rfl
+  | addUser u p adm => exact hAtomic _ rfl
+  | disableUser u => exact hAtomic _ rfl
+  | changePassword u o nw => exact hAtomic _ rfl
+  | remoteLogin z u p => exact hAtomic _ rfl
+  | remoteLogoff z => exact hAtomic _ rfl
+  | usmLogin u p peer => exact hAtomic _ rfl
+  | usmLogout i => exact hAtomic _ rfl
+  | svc w v => exact hAtomic _ rfl
+  | shutdown => exact hAtomic _ rfl
+  | startup => exact hAtomic _ rfl
+  | reset => exact hAtomic _ rfl
+
+theorem exec_induction' (P : Net → Net → Prop) (refl : ∀ n, P n n) (trans : ∀ a b c, P a b → P b c → P a c)
+    (hAtomic : ∀ c, c.atomic = true → ∀ n y, P n (execCmd c n y).1)
+    (hDisc : ∀ n y cid, P n (disconnect n.fuel n y cid))
+    (hTouch : ∀ n y cid t, P n (n.upd y (Node.touch cid t)))
+    (hLogin : ∀ n y u p, P n (localLogin n y u p).1)
+    (hConn : ∀ n y c, P n (n.upd y (Node.addConn c))) :
+    ∀ (c : Cmd) (n : Net) (y : Nat), P n (execCmd c n y).1 :=
+  exec_induction'' P refl trans hAtomic hDisc hTouch hLogin (fun n y u p id _ => trans _ _ _ (hLogin n y u p) (hConn _ _ _))
+
+theorem exec_induction (P : Net → Net → Prop) (refl : ∀ n, P n n) (trans : ∀ a b c, P a b → P b c → P a c)
+    (hAtomic : ∀ c, c.atomic = true → ∀ n y, P n (execCmd c n y).1)
+    (hShr : ∀ n m, n.Shr m → P n m)
+    (hTouch : ∀ n y cid t, P n (n.upd y (Node.touch cid t)))
+    (hLogin : ∀ n y u p, P n (localLogin n y u p).1)
+    (hConn : ∀ n y c, P n (n.upd y (Node.addConn c))) :
+    ∀ (c : Cmd) (n : Net) (y : Nat), P n (execCmd c n y).1 :=
+  exec_induction' P refl trans hAtomic (fun n y cid => hShr _ _ (shr_disconnect _ _ _ _)) hTouch hLogin hConn
 
 theorem Net.Rel.none {n m : Net} (h : Net.Rel R n m) {j : Nat} (hj : n.node j = none) : m.node j = none := by
   unfold Net.node at *
